@@ -502,6 +502,15 @@ def _transmit_and_equalize(case, ctx, o, used_eff, ch, x, tx, n_sym, tags,
                         "response is zero on every used carrier although the "
                         "channel output is not", tags)
     cond = float(np.max(Hu) / np.min(Hu)) if np.min(Hu) > 0 else math.inf
+    if case.get("xseed", 0) % 3 == 1:
+        # the caller applies its own link gain AFTER having looked at the
+        # reported response: received signal and response are both scaled
+        # (documented use of 'g * impulse_response')
+        g = 0.2512
+        ir.get_freq_response(fft)
+        ir = g * ir
+        y = g * y
+        ctx.label("response_scaled_by_caller_after_use")
     if case.get("xseed", 0) % 7 in (1, 2, 3):
         # the same response object is asked for another FFT size first (a
         # plot of the frequency response with finer resolution)
